@@ -1,18 +1,22 @@
 ----------------------------- MODULE MC_NodeMap -----------------------------
 EXTENDS NodeMap
 
-K3 == {"a", "b", "z"}
+\* "a_b" is absent from every initial map; one of them holds the dashed
+\* spelling "a-b", which the accessors must treat as a different key
+K3 == {"a", "b", "a_b"}
 S(t, v) == <<"s", t, v>>
 \* two keys with equal scalar values: in a composed document they may be ONE node
 Twin == << <<"a", S("int", "1")>>, <<"b", S("int", "1")>> >>
 Inits == { <<>>, Twin,
            << <<"a", S("int", "1")>>, <<"b", S("str", "x")>> >>,
            << <<"b", <<"q">>>>, <<"a", <<"m">>>> >>,
-           << <<"a", S("null", "")>>, <<"b", S("bool", "true")>>, <<"c", S("float", "1.5")>> >> }
+           << <<"a", S("null", "")>>, <<"b", S("bool", "true")>>, <<"c", S("float", "1.5")>> >>,
+           << <<"a-b", S("int", "1")>>, <<"b", S("str", "x")>> >> }
 Vals == {<<"str", "v">>, <<"int", "7">>, <<"bool", "false">>, <<"null", "">>, <<"float", "2.5">>}
 AllTypes == {"str", "int", "float", "bool", "null", "list", "dict"}
 QTypes == {"str", "null", "list"}
 InitsQ == { Twin, << <<"a", S("int", "1")>>, <<"b", S("str", "x")>> >>,
-            << <<"b", <<"q">>>>, <<"a", <<"m">>>> >> }
+            << <<"b", <<"q">>>>, <<"a", <<"m">>>> >>,
+            << <<"a-b", S("int", "1")>>, <<"b", S("str", "x")>> >> }
 ValsQ == {<<"str", "v">>, <<"int", "7">>, <<"null", "">>}
 =============================================================================
